@@ -94,7 +94,7 @@ class Monitor:
 
     def _core(self, op, attr, default):
         def h(request):
-            entry = [op, getattr(request, attr), 0]
+            entry = [op, getattr(request, attr), 0, False]  # (operation, object, type validations seen, implementation entered)
             self.stack.append(entry)
             self.seen[op] = self.seen.get(op, 0) + 1
             try:
@@ -137,7 +137,12 @@ class Monitor:
             self.entered.add((op, cls))
             if cls == "Cached" and op == "evaluate" and me is not None:
                 self.cached_entered.append(me)
-            if not any(e[0] == op and e[1] is me for e in self.stack) and self.violation is None:
+            # one request, one run of the implementation: a re-entry of the same object (a recursive graph, other options) needs
+            # a request of its own, an outer one still in flight does not cover it
+            mine = next((e for e in reversed(self.stack) if e[0] == op and e[1] is me and not e[3]), None)
+            if mine is not None:
+                mine[3] = True
+            elif self.violation is None:
                 self.violation = ("implementation-entered-without-request", {"operation": op, "type": cls, "object": repr(me)[:120]})
             return
         hit = self.backend.get(code)
@@ -192,12 +197,23 @@ class C18(HistoryProperty):
         spec = gen.gen_spec(rng, cfg)
         inner = [n["id"] for n in spec["nodes"] if n["k"] in ("switch", "case", "coalesce", "bind", "map", "template", "apply", "dsclass")]
         spec["roots"] = list(dict.fromkeys(spec["roots"] + rng.sample(inner, min(len(inner), rng.randint(0, 2)))))
+        rec = None
+        if rng.random() < 0.2:
+            # a recursive graph (see build._b_recur): the dataset re-enters itself with a smaller RN
+            rec = f"r{len(spec['nodes'])}"
+            spec["nodes"].append({"k": "recur", "name": "REC", "key": "RN", "cache": "nocache" if (subst or rng.random() < 0.5) else "default", "id": rec})
+            spec["roots"] = spec["roots"] + [rec]
         spec = gen.prune(spec)
         if subst:
             for n in spec["nodes"]:
                 if n["k"] == "dataset":
                     n["cache"] = "nocache"
         ops = gen_history(rng, cfg, spec, ops_kinds=("evaluate", "evaluate", "evaluate", "call", "validate", "keys", "explain"))
+        if rec is not None:
+            for op in ops:
+                if op["node"] == rec or rng.random() < 0.3:
+                    op["node"] = rec
+                    op["o"] = dict(op["o"], RN=rng.choice([0, 1, 2, 3]))
         targets = [n["id"] for n in spec["nodes"] if n["k"] == "dataset" and n["id"] not in spec["roots"]]
         # dataset classes (as members of other dataset classes, arguments, branches) are evaluated through requests too
         bases = {n.get("base") for n in spec["nodes"] if n["k"] == "dsclass"}
